@@ -3,7 +3,8 @@
 prepare(tier, seed) (cached by a hash of /repo's sources, the harness, this file, tier and seed):
   1. package specs: the standard packages of vgen (reused from build/gen), a flag matrix over the
      fixed corpus (/verif/yang), random module sets of lib/yanggen.py under random flag
-     combinations, packages with path structs (C29), and fixed schemas that reproduce known
+     combinations, packages with path structs (C29; some with the builder-style list API of
+     -list_builder_key_threshold, stream pathbuilder), and fixed schemas that reproduce known
      generator defects;
   2. runs build/bin/generator (built by vgen from /repo's working tree) for each spec;
   3. `go build` and `go vet` of every generated package inside a shadow of /repo's module
@@ -96,6 +97,94 @@ DEFECT_YANG = {
 }
 
 
+# OpenConfig-style schema with multi-key lists for the builder-style path API (C29, stream pathbuilder):
+# 3 keys (string, uint16, enumeration), nested 2 keys (identityref, union), 2 keys (int32, boolean),
+# 2 keys (decimal64, string), a multi-key list directly below the fake root, single-key lists below them.
+BUILDER_YANG = {
+    "b-multi.yang": """module b-multi {
+  namespace "urn:verif:b-multi"; prefix bm;
+  identity proto;
+  identity tcp { base proto; }
+  identity udp { base proto; }
+  typedef dir-t { type enumeration { enum IN; enum OUT { value 7; } } }
+  grouping link-cfg { leaf node { type string; } leaf port { type uint16; } leaf dir { type dir-t; } leaf cost { type uint32; } }
+  grouping flow-cfg { leaf proto { type identityref { base proto; } } leaf id { type union { type uint32; type string; } } leaf weight { type decimal64 { fraction-digits 2; } } }
+  grouping hop-cfg { leaf index { type uint8; } leaf addr { type string; } }
+  grouping zone-cfg { leaf prio { type int32; } leaf strict { type boolean; } leaf label { type string; } }
+  grouping member-cfg { leaf name { type string; } leaf share { type decimal64 { fraction-digits 3; } } }
+  grouping rate-cfg { leaf bw { type decimal64 { fraction-digits 2; } } leaf unit { type string; } leaf burst { type uint64; } }
+  grouping tunnel-cfg { leaf src { type string; } leaf dst { type string; } leaf ttl { type uint8; } }
+  container fabric {
+    container config { leaf fabric-name { type string; } }
+    container state { config false; leaf fabric-name { type string; } }
+    container links {
+      list link {
+        key "node port dir";
+        leaf node { type leafref { path "../config/node"; } }
+        leaf port { type leafref { path "../config/port"; } }
+        leaf dir { type leafref { path "../config/dir"; } }
+        container config { uses link-cfg; }
+        container state { config false; uses link-cfg; leaf up { type boolean; } }
+        container flows {
+          list flow {
+            key "proto id";
+            leaf proto { type leafref { path "../config/proto"; } }
+            leaf id { type leafref { path "../config/id"; } }
+            container config { uses flow-cfg; }
+            container state { config false; uses flow-cfg; leaf pkts { type uint64; } }
+            container hops {
+              list hop {
+                key "index";
+                leaf index { type leafref { path "../config/index"; } }
+                container config { uses hop-cfg; }
+                container state { config false; uses hop-cfg; }
+              }
+            }
+          }
+        }
+      }
+    }
+    container zones {
+      list zone {
+        key "prio strict";
+        leaf prio { type leafref { path "../config/prio"; } }
+        leaf strict { type leafref { path "../config/strict"; } }
+        container config { uses zone-cfg; }
+        container state { config false; uses zone-cfg; }
+        container members {
+          list member {
+            key "name";
+            leaf name { type leafref { path "../config/name"; } }
+            container config { uses member-cfg; }
+            container state { config false; uses member-cfg; }
+          }
+        }
+      }
+    }
+    container rates {
+      list rate {
+        key "bw unit";
+        leaf bw { type leafref { path "../config/bw"; } }
+        leaf unit { type leafref { path "../config/unit"; } }
+        container config { uses rate-cfg; }
+        container state { config false; uses rate-cfg; }
+      }
+    }
+  }
+  container tunnels {
+    list tunnel {
+      key "src dst";
+      leaf src { type leafref { path "../config/src"; } }
+      leaf dst { type leafref { path "../config/dst"; } }
+      container config { uses tunnel-cfg; }
+      container state { config false; uses tunnel-cfg; leaf hits { type uint64; } }
+    }
+  }
+}
+""",
+}
+
+
 def camel(s):
     # yang.CamelCase for the plain names used as fake root names here
     return "".join(p[:1].upper() + p[1:] for p in re.split(r"[-_.]", s) if p)
@@ -108,9 +197,12 @@ def mkspec(name, group, yang, path, flags, **kw):
              exclude_state="-exclude_state" in fl, ordered_maps="-generate_ordered_maps=false" not in fl,
              descriptions="-include_descriptions" in fl, excluded=[], path_structs="-generate_path_structs" in fl,
              wrapper_unions="-generate_simple_unions" not in fl, features=[], standard=False)
+    s["path_builder"] = 0          # -list_builder_key_threshold: lists with at least that many keys get XxxAny() + With<Key>()
     for f in fl:
         if f.startswith("-fakeroot_name="):
             s["rootname"] = f.split("=", 1)[1]
+        if f.startswith("-list_builder_key_threshold="):
+            s["path_builder"] = int(f.split("=", 1)[1])
     s.update(kw)
     return s
 
@@ -125,6 +217,7 @@ def specs(tier, seed):
     oc, main = [os.path.join(Y, "v-oc.yang")], [os.path.join(Y, "v-main.yang"), os.path.join(Y, "v-types.yang")]
     SU, CP = "-generate_simple_unions", "-compress_paths"
     PS = ["-generate_path_structs"]
+    LB = "-list_builder_key_threshold=%d"
     matrix = [
         ("c29_voc_c", oc, [SU, CP] + PS, True),
         ("c29_voc_s", oc, [SU, CP, "-prefer_operational_state"] + PS, True),
@@ -136,10 +229,23 @@ def specs(tier, seed):
         ("m_main_sk", main, [SU, "-skip_enum_deduplication", "-typedef_enum_with_defmod"], False),
         ("c29_voc_w", oc, [CP, "-simplify_wildcard_paths"] + PS, False),
         ("c29_voc_x", oc, [SU, CP, "-exclude_state"] + PS, False),
+        # builder-style list API (stream pathbuilder): lists with >= N keys get XxxAny() + With<Key>()
+        ("c29b_voc_2", oc, [SU, CP] + PS + [LB % 2], True),
+        ("c29b_voc_1", oc, [SU, CP, "-prefer_operational_state"] + PS + [LB % 1], True),
+        ("c29b_voc_w", oc, [CP, "-simplify_wildcard_paths"] + PS + [LB % 2], False),
     ]
     for name, yf, flags, quick in matrix:
         if quick or tier == "thorough":
             out.append(mkspec(name, "matrix", yf, [Y], COMMON + flags))
+    bd = os.path.join(GEN, "yang", "builder")
+    bm = [os.path.join(bd, "b-multi.yang")]
+    for name, flags, quick in [
+        ("c29b_multi_2", [SU, CP] + PS + [LB % 2], True),
+        ("c29b_multi_3", [CP, "-prefer_operational_state"] + PS + [LB % 3], False),      # wrapper unions; only the 3-key list is a builder
+        ("c29b_multi_1", [SU, CP, "-exclude_state", "-simplify_wildcard_paths"] + PS + [LB % 1], False),
+    ]:
+        if quick or tier == "thorough":
+            out.append(mkspec(name, "matrix", bm, [bd], COMMON + flags, yang_text=dict(BUILDER_YANG), yang_dir=bd))
     # random module sets
     ydir = os.path.join(GEN, "yang")
     rng = random.Random(seed * 7919 + (1 if tier == "thorough" else 0))
@@ -178,6 +284,11 @@ def specs(tier, seed):
         name = "g%s%s_%d_%d" % (style[0], tier[0], seed, i)
         out.append(mkspec(name, "random", [os.path.join(d, f) for f in m["main"]], [d], COMMON + flags,
                           features=m["features"], yang_text=m["files"], yang_dir=d, yang_seed=mseed, style=style))
+        if style == "oc" and i % 4 == 1 and (tier == "thorough" or i == 1):
+            # the same modules once more with the builder-style list API (no draw from rng: the other specs stay as they were)
+            bflags = [f for f in flags if f not in PS] + PS + [LB % (2 if i % 8 == 1 else 1)]
+            out.append(mkspec(name + "b", "random", [os.path.join(d, f) for f in m["main"]], [d], COMMON + bflags,
+                              features=m["features"], yang_text=m["files"], yang_dir=d, yang_seed=mseed, style=style))
     # known-defect schemas
     dd = os.path.join(ydir, "defect")
     out.append(mkspec("d_enum_s", "defect", [os.path.join(dd, "d-enum.yang")], [dd], COMMON + [SU, CP, "-prefer_operational_state"],
@@ -395,9 +506,12 @@ def _prepare(tier, seed):
     open(gi, "w").write("//go:build verif\n\npackage main\n\nimport (\n%s\n)\n" % "\n".join('\t_ "%s%s"' % (IMPORT, n) for n in sorted(imports)))
     ov[os.path.join(REPO, "internal", "verifharness", "ydrive", "zz_gen_imports.go")] = gi
     rf = os.path.join(GEN, "zz_c29_roots.go")
+    # packages with the builder-style list API are enumerated by stream pathbuilder (c29bRoots, harness/ydrive/c29_builder.go),
+    # the others by stream pathstructs (c29Roots)
     body = "//go:build verif\n\npackage main\n\nimport (\n\t\"github.com/openconfig/ygot/ygot\"\n%s\n)\n\nfunc init() {\n%s\n}\n" % (
         "\n".join('\tr%d "%s%s"' % (i, IMPORT, s["name"]) for i, s in enumerate(roots)),
-        "\n".join('\tc29Roots["%s"] = func(id string) ygot.PathStruct { return r%d.DeviceRoot(id) }' % (s["name"], i) for i, s in enumerate(roots)))
+        "\n".join('\t%s["%s"] = func(id string) ygot.PathStruct { return r%d.DeviceRoot(id) }' % ("c29bRoots" if s.get("path_builder") else "c29Roots", s["name"], i)
+                  for i, s in enumerate(roots)))
     if roots:
         open(rf, "w").write(body)
         ov[os.path.join(REPO, "internal", "verifharness", "ydrive", "zz_c29_roots.go")] = rf
